@@ -943,7 +943,7 @@ def first_violation(ledger, law):
 
 
 def run(tier, rng):
-    n_ledgers = 20 if tier == 'quick' else 260
+    n_ledgers = 20 if tier == 'quick' else 200
     n_extra = 8 if tier == 'quick' else 14
     n_dates = 6 if tier == 'quick' else 9
     shutil.rmtree(TMP, ignore_errors=True)
